@@ -434,7 +434,8 @@ def displacedSqueezed(r_d, phi_d, r_s, phi_s, trunc):
     alpha = r_d * np.exp(1j * phi_d)
 
     gamma = alpha * ch + np.conj(alpha) * ph * sh
-    hermite_arg = gamma / np.sqrt(ph * np.sinh(2 * r_s) + 1e-10)
+    # (r_s is not zero here: that case returned a coherent state above)
+    hermite_arg = gamma / np.sqrt(ph * np.sinh(2 * r_s))
 
     # normalization constant
     N = np.exp(-0.5 * np.abs(alpha) ** 2 - 0.5 * np.conj(alpha) ** 2 * ph * th)
